@@ -460,6 +460,10 @@ func (s *Svc) do(ctx context.Context, req, res *Msg, shape string) error {
 	if req.Flags&FlFail != 0 {
 		return errors.New(ErrText(req.ID, int(req.Arg)))
 	}
+	if req.Flags&FlEmpty != 0 && req.Flags&FlBadReply == 0 {
+		*res = Msg{}
+		return nil
+	}
 	res.ID = req.ID
 	res.Server = s.ident()
 	res.Flags = req.Flags
@@ -508,6 +512,10 @@ func (s *Svc) bdo(ctx context.Context, req *[]byte, res *[]byte, shape string) e
 	var out Msg
 	if err := s.do(ctx, &m, &out, shape); err != nil {
 		return err
+	}
+	if out.isZero() {
+		*res = []byte{}
+		return nil
 	}
 	b, err := out.Marshal(nil)
 	if err != nil {
